@@ -5,6 +5,7 @@ package ast
 import (
 	"bytes"
 	"fmt"
+	"sort"
 	"strconv"
 
 	"github.com/robfig/soy/data"
@@ -750,21 +751,30 @@ func (n *MapLiteralNode) String() string {
 		return "[:]"
 	}
 	var expr = "["
-	var first = true
-	for k, v := range n.Items {
-		if !first {
+	for i, k := range n.sortedKeys() {
+		if i > 0 {
 			expr += ", "
 		}
-		expr += fmt.Sprintf("'%s': %s", k, v.String())
-		first = false
+		expr += fmt.Sprintf("'%s': %s", k, n.Items[k].String())
 	}
 	return expr + "]"
 }
 
+// sortedKeys returns the keys of the literal in sorted order, so that printing
+// and traversal do not depend on Go's randomised map iteration.
+func (n *MapLiteralNode) sortedKeys() []string {
+	var keys = make([]string, 0, len(n.Items))
+	for k := range n.Items {
+		keys = append(keys, k)
+	}
+	sort.Strings(keys)
+	return keys
+}
+
 func (n *MapLiteralNode) Children() []Node {
 	var nodes []Node
-	for _, v := range n.Items {
-		nodes = append(nodes, v)
+	for _, k := range n.sortedKeys() {
+		nodes = append(nodes, n.Items[k])
 	}
 	return nodes
 }
